@@ -762,14 +762,22 @@ func genDispatcher(g *runner, r *lib.Rand, n int) {
 		pickPath(r, p, []int{0, 1, 1, 2, 3}[r.Intn(5)])
 		p.dp = ports[r.Intn(len(ports))]
 		p.dt, p.da = 0, []byte{127, 0, 13, 3}
+		nts := ""
+		if r.Chance(25) {
+			// an NTP request with NTS extension fields (the forwarder has neither keys nor a
+			// key provider: it must pass it on like any other payload)
+			p.pld = ntsRequest(r, byte(r.U64()), r.Chance(75))
+			nts = ":nts"
+		}
 		if r.Chance(20) {
 			withAuth(p, spiClient, 0)
 		}
 		if r.Chance(10) {
 			p.l4, p.scmpT, p.sp, p.dp, p.pld = "scmp", []int{128, 130, 5}[r.Intn(3)], 0, 0, r.Bytes(12)
+			nts = ""
 		}
 		finish(p)
-		g.run(p, fmt.Sprintf("disp:dp=%s", portClass(p.dp)), false)
+		g.run(p, fmt.Sprintf("disp:dp=%s%s", portClass(p.dp), nts), false)
 	}
 }
 
